@@ -30,6 +30,8 @@ def aligned(scores, labels, base_s, base_l):
 
 
 def run(ctx, chk, tier):
+    from . import c14 as _c14
+    _c14.set_iteration_order(ctx, chk, rule="R12.4")   # the by-group sampling loop visits the groups in an order given by the object's content
     from . import c01 as _c01
     _c01.flag_identity(ctx, chk)   # direction flags: identity comparisons need BinaryLabel members on every construction path
     chk.rule_text = ("alignment obligations: one per (class, construction site) pair (scores, labels) in __init__, from_labels, swap and every bootstrap_sample path; "
